@@ -389,7 +389,7 @@ def slist_eq(I, a, b):
         return False  # a list with an unknown prefix is not known to equal any concrete list
     if not z3.eq(a.base, b.base) or len(a.tail) != len(b.tail):
         return False
-    return _and([_z(I.formula(I.eq(x, y))) for x, y in zip(a.tail, b.tail)])
+    return _and([_z(I.eq(x, y)) for x, y in zip(a.tail, b.tail)])
 
 
 # ---------------------------------------------------------------------------
